@@ -282,16 +282,23 @@ func trunc(s string, n int) string {
 	return s
 }
 
+// conclusiveSig: a finding of this kind is settled by one observation.
+func conclusiveSig(sig string) bool {
+	switch sig {
+	case "c03-retained-row-changed", "c03-rows-share-state", "c03-shared-state", "c17-helper-result-not-stable",
+		// bytes allocated while one artefact was read, from the runtime's monotonic counter in a
+		// single-threaded child: megabytes above the bound cannot come from the harness, but
+		// whether a pooled decoder allocates its window again depends on what it decoded before
+		"c19-allocation":
+		return true
+	}
+	return false
+}
+
 // conclusiveOnce: every finding of the case is of a kind that one observation settles.
 func conclusiveOnce(fs []Finding) bool {
 	for _, f := range fs {
-		switch f.Sig {
-		case "c03-retained-row-changed", "c03-rows-share-state", "c03-shared-state", "c17-helper-result-not-stable",
-			// bytes allocated while one artefact was read, from the runtime's monotonic counter in a
-			// single-threaded child: megabytes above the bound cannot come from the harness, but
-			// whether a pooled decoder allocates its window again depends on what it decoded before
-			"c19-allocation":
-		default:
+		if !conclusiveSig(f.Sig) {
 			return false
 		}
 	}
@@ -299,12 +306,17 @@ func conclusiveOnce(fs []Finding) bool {
 }
 
 func sameSigs(a, b []Finding) bool {
+	// findings settled by one observation need not repeat: the other findings must
 	sa, sb := map[string]bool{}, map[string]bool{}
 	for _, f := range a {
-		sa[f.Sig] = true
+		if !conclusiveSig(f.Sig) {
+			sa[f.Sig] = true
+		}
 	}
 	for _, f := range b {
-		sb[f.Sig] = true
+		if !conclusiveSig(f.Sig) {
+			sb[f.Sig] = true
+		}
 	}
 	if len(sa) != len(sb) {
 		return false
